@@ -1,4 +1,122 @@
+(* C12 — Docstring parsers are total and terminating on arbitrary text.
+   Property theorems only: each closed by [exact] of a lemma from Proofs/, followed by Print Assumptions.
+   A docstring is a list of line-feature records ([lf], one per line of Docstring.lines); every lines[i] of the
+   Python code is an explicit lookup whose failure is [Err IndexError]; the three offset-driven main loops run on
+   fuel [S (length lines)] and report [Err OutOfFuel] when it runs out. *)
 From Coq Require Import List ZArith String Bool Arith.
 From Verif Require Import Lib.Sexp Model.C12_docstrings Proofs.C12_docstrings.
-Theorem C12_stub : True. Proof. exact stub. Qed.
-Print Assumptions C12_stub.
+Import ListNotations.
+Open Scope list_scope. Open Scope nat_scope.
+
+(* ---- termination: len(lines)+1 iterations always suffice, for every line sequence, option set and parent ---- *)
+Theorem C12_google_terminates : forall lines o p, g_parse lines o p <> Err OutOfFuel.
+Proof. exact google_terminates. Qed.
+Print Assumptions C12_google_terminates.
+
+Theorem C12_numpy_terminates : forall lines o p, n_parse lines o p <> Err OutOfFuel.
+Proof. exact numpy_terminates. Qed.
+Print Assumptions C12_numpy_terminates.
+
+Theorem C12_sphinx_terminates : forall lines, s_parse lines <> Err OutOfFuel.
+Proof. exact sphinx_terminates. Qed.
+Print Assumptions C12_sphinx_terminates.
+
+(* the offset contract behind it: a reader called at [offset] hands back at least offset - 1 *)
+Theorem C12_google_reader_offset_contract :
+  forall lines o k offset n off', g_reader lines o k offset = Ok (n, off') ->
+    offset <= S off' /\ off' <= Nat.max offset (List.length lines).
+Proof. exact g_reader_off. Qed.
+Print Assumptions C12_google_reader_offset_contract.
+
+Theorem C12_numpy_reader_offset_contract :
+  forall lines k offset n off', n_reader lines k offset = Ok (n, off') ->
+    offset <= S off' /\ off' <= Nat.max offset (List.length lines).
+Proof. exact n_reader_off. Qed.
+Print Assumptions C12_numpy_reader_offset_contract.
+
+(* ---- totality: no lookup fails.  Google and Sphinx need no hypothesis at all (the indented-line-below test
+   guarantees a non-blank line for the readers' blank-line skip); Numpy needs the cleandoc post-condition of
+   Docstring.__init__, and without it IndexError does occur. ---- *)
+Theorem C12_google_total : forall lines o p, exists secs, g_parse lines o p = Ok secs.
+Proof. exact google_total. Qed.
+Print Assumptions C12_google_total.
+
+Theorem C12_numpy_total :
+  forall lines o p, cleandoc_post lines = true -> exists secs, n_parse lines o p = Ok secs.
+Proof. exact numpy_total. Qed.
+Print Assumptions C12_numpy_total.
+
+Theorem C12_numpy_index_error_without_cleandoc :
+  exists lines, cleandoc_post lines = false /\ n_parse lines gopts_default no_parent = Err IndexError.
+Proof. exact numpy_index_error_without_cleandoc. Qed.
+Print Assumptions C12_numpy_index_error_without_cleandoc.
+
+Theorem C12_sphinx_total : forall lines, exists secs, s_parse lines = Ok secs.
+Proof. exact sphinx_total. Qed.
+Print Assumptions C12_sphinx_total.
+
+(* ---- text without section syntax: exactly one text section made of all lines, in order ----
+   Google: no line matches the admonition/section-header pattern.  The whole behaviour is pinned, including the two
+   options that touch plain text by design: ignore_init_summary on a Class.__init__ docstring starts at line 2, and
+   returns_type_in_property_summary on a property cuts "type:" off the first non-blank line and appends a Returns
+   section.  Lines are taken verbatim ([idx_text]: no line is emptied). *)
+Theorem C12_google_plain_text_single_section :
+  forall lines o p,
+    (forall l, In l lines -> gadm l = ANone) ->
+    g_parse lines o p =
+    Ok (if List.length lines <=? g_start o p then []
+        else if o_ret_prop o && p_property p && fnc_lines (skipn (g_start o p) lines)
+             then [SText (idx_text (g_start o p) (List.length lines - g_start o p)) true true; SSec KReturns 0 1]
+             else [SText (idx_text (g_start o p) (List.length lines - g_start o p))
+                         (fnc_lines (skipn (g_start o p) lines)) false]).
+Proof. exact google_plain_text. Qed.
+Print Assumptions C12_google_plain_text_single_section.
+
+(* Sphinx: no line starts a field.  The text is every line after the leading blank ones, verbatim. *)
+Theorem C12_sphinx_plain_text_single_section :
+  forall lines,
+    (forall l, In l lines -> sfield l = None) -> cleandoc_post lines = true ->
+    s_parse lines =
+    Ok [SText (idx_text (leading_blank lines) (List.length lines - leading_blank lines)) false false].
+Proof. exact sphinx_plain_text. Qed.
+Print Assumptions C12_sphinx_plain_text_single_section.
+
+(* Numpy: no dash line.  The full statement is false for the empty docstring (finding C12-F1: no section at all);
+   outside that gap the result is one text section with every line from the start offset on, in order, where only
+   blank lines may have been emptied ("whitespace on otherwise blank lines aside"). *)
+Theorem C12_numpy_plain_text_refuted_F1 :
+  exists lines o p,
+    (forall l, In l lines -> dash l = false) /\ cleandoc_post lines = true /\ lines_wf lines = true /\
+    KnownGap_F1 lines = true /\ g_start o p < List.length lines /\ n_parse lines o p = Ok [].
+Proof. exact numpy_plain_text_refuted_F1. Qed.
+Print Assumptions C12_numpy_plain_text_refuted_F1.
+
+Theorem C12_numpy_plain_text_modulo_known :
+  forall lines o p,
+    (forall l, In l lines -> dash l = false) ->
+    cleandoc_post lines = true -> lines_wf lines = true -> KnownGap_F1 lines = false ->
+    exists ls fc,
+      n_parse lines o p = Ok (if List.length lines <=? g_start o p then [] else [SText ls fc false]) /\
+      (g_start o p < List.length lines ->
+       map fst ls = seq (g_start o p) (List.length lines - g_start o p) /\
+       forall i b, In (i, b) ls -> b = true -> exists l, nth_error lines i = Some l /\ blank l = true).
+Proof. exact numpy_plain_text_modulo_known. Qed.
+Print Assumptions C12_numpy_plain_text_modulo_known.
+
+(* ---- well-formed sections: text lines exist, admonitions have a header above a non-empty block inside the
+   docstring, every other section has at least one item and an existing header; Sphinx returns its text first ---- *)
+Theorem C12_google_sections_well_formed :
+  forall lines o p secs, g_parse lines o p = Ok secs -> wf_sections (List.length lines) secs = true.
+Proof. exact google_sections_well_formed. Qed.
+Print Assumptions C12_google_sections_well_formed.
+
+Theorem C12_numpy_sections_well_formed :
+  forall lines o p secs, n_parse lines o p = Ok secs -> wf_sections (List.length lines) secs = true.
+Proof. exact numpy_sections_well_formed. Qed.
+Print Assumptions C12_numpy_sections_well_formed.
+
+Theorem C12_sphinx_sections_well_formed :
+  forall lines secs, s_parse lines = Ok secs ->
+    wf_sections (List.length lines) secs = true /\ exists ls rest, secs = SText ls false false :: rest.
+Proof. exact sphinx_sections_well_formed. Qed.
+Print Assumptions C12_sphinx_sections_well_formed.
